@@ -177,7 +177,7 @@ fn gen_attr(rng: &mut Rng, hv: &HVocab) -> GTree {
         0 | 1 => l.clone(),
         2 => l.to_ascii_uppercase(),
         3 => l.to_ascii_lowercase(),
-        4 => rng.pick(&["\"", "&", "a\"b&c", "\u{a0}", "'", "<", ">", "a\tb\nc", ""]).to_string(),
+        4 => rng.pick(&["\"", "&", "a\"b&c", "\u{a0}", "'", "<", ">", "a\tb\nc", "", "&{handler};", "a &{x} &amp; &#38; &b;", "&&{", "x&"]).to_string(),
         _ => gen_text(rng, false),
     };
     let value = if hv.ns_of(n) == 1 && l == "space" { rng.pick(&["preserve", "default", "x"]).to_string() } else { value };
